@@ -47,6 +47,11 @@ fn date_variants(inst: Instant, written_local: Option<(i64, u32, u32)>) -> Vec<S
             Some((y, m, d)) => format!("{:04}{:02}{:02}", y, m, d),
             None => format!("{}0", d8),
         },
+        // numerically equal, textually different
+        format!("+{}", d8),
+        format!("0{}", d8),
+        format!("00{}", d8),
+        format!("{}.0", d8),
     ]
 }
 
@@ -76,7 +81,7 @@ pub fn run(ctx: &Ctx) -> Report {
     let n_inst = if thorough { instants.len() } else { 3 } as u64;
 
     // (1) five-part credentials: date x region x service x terminator near-misses
-    let total1 = n_serv * n_inst * 8 * 8 * 8 * 8 * 2 * 2;
+    let total1 = n_serv * n_inst * 12 * 8 * 8 * 8 * 2 * 2;
     let mut st = par_sweep(total1, |i, st| {
         let mut x = i;
         let carrier = if x % 2 == 0 { Carrier::Header } else { Carrier::Query };
@@ -89,8 +94,8 @@ pub fn run(ctx: &Ctx) -> Report {
         x /= 8;
         let ri = (x % 8) as usize;
         x /= 8;
-        let di = (x % 8) as usize;
-        x /= 8;
+        let di = (x % 12) as usize;
+        x /= 12;
         // quick tier picks the instants with a date subtlety first
         let inst_order = [3usize, 0, 2, 1, 4, 5];
         let (inst, date_text, local) = &instants[inst_order[(x % n_inst) as usize]];
@@ -181,7 +186,7 @@ pub fn run(ctx: &Ctx) -> Report {
     Report {
         stats: st,
         rule: format!(
-            "(1) five-part credentials: 8 date variants (exact, -1 day, +1 day, 7 digits, trailing space, extended, empty, written-local date) x 8 near-misses each of region, service and terminator (exact, prefix, suffix, x+v, v+x, UPPER, empty, look-alike) x {} server (region, service) pairs x {} request instants (incl. 23:59:59Z, 00:00:00Z and offsets whose UTC date differs from the written date) x signing mode A (correctly signed under the credential's own scope; provider returns that key unconditionally) / B (signed under the server's scope) x carrier; (2) credentials of 1..8 parts, with leading/trailing/double slashes, empty access key and no slash at all. Oracle: reference verifier (Ok iff all five parts right; arity => IncompleteSignature/400; other mismatch => SignatureDoesNotMatch/403 also in mode A; provider asked iff scope fully correct, with (access key, token, UTC date, server region, server service)). states = distinct (stage, kind, provider ask)",
+            "(1) five-part credentials: 12 date variants (exact, -1 day, +1 day, 7 digits, trailing space, extended, empty, written-local date, and the numerically equal spellings +D, 0D, 00D, D.0) x 8 near-misses each of region, service and terminator (exact, prefix, suffix, x+v, v+x, UPPER, empty, look-alike) x {} server (region, service) pairs x {} request instants (incl. 23:59:59Z, 00:00:00Z and offsets whose UTC date differs from the written date) x signing mode A (correctly signed under the credential's own scope; provider returns that key unconditionally) / B (signed under the server's scope) x carrier; (2) credentials of 1..8 parts, with leading/trailing/double slashes, empty access key and no slash at all. Oracle: reference verifier (Ok iff all five parts right; arity => IncompleteSignature/400; other mismatch => SignatureDoesNotMatch/403 also in mode A; provider asked iff scope fully correct, with (access key, token, UTC date, server region, server service)). states = distinct (stage, kind, provider ask)",
             n_serv, n_inst
         ),
         bounds: json!({"servers": n_serv, "instants": n_inst, "cases": total1 + total2}),
